@@ -121,13 +121,16 @@ def run(ctx):
             CC.corr_encode_decode(ctx, mods[codec], cases[:len(cases) // 2 if ctx.quick else len(cases)])
     boundary.run(ctx, X.BINARY, mods, lengths=None if not ctx.quick else 'quick')
     if not ctx.quick:
+        ctx.log('large-length cases')
         big = X.union_opts(X.BINARY, mods, big=True, max_depth=1, n_types=2)
         for c in CC.gen_cases(ctx, big, 60, 2):
             for codec in X.BINARY:
                 if X.scope_ok(codec, mods, c):
                     X.pt_roundtrip(ctx, codec, c)
                     ctx.case(('pt-big', codec, G.shape(c.rt, c.t), repr(c.value)[:20]), None)
+    ctx.log('REAL sweep')
     pt_real(ctx, 150 if ctx.quick else 5000)
+    ctx.log('known-finding witnesses')
     rerun_findings(ctx)
     if not ok:
         common.proof_broken(ctx)
